@@ -365,7 +365,9 @@ def main():
         if args.attribute:
             attrs = set(args.attribute)
             if ':all' in attrs:
-                attrs = {field.name for field in api.route_schema.fields}
+                # names given next to :all must still be attributes of the schema
+                attrs.discard(':all')
+                attrs.update(field.name for field in api.route_schema.fields)
         else:
             attrs = set()
 
